@@ -1,5 +1,6 @@
 import FuModel.Find.Expr
 import FuModel.Find.Walk
+import FuModel.Base.Path
 
 /-!
 # A whole run of find: starting points, configuration, walk, evaluation (`do_find`)
@@ -25,11 +26,17 @@ inductive Prim where
   | pathOut (pre : Bytes) (term : Bytes) -- writes pre ++ path ++ term  (-print, -print0, -printf 'pre%pterm')
   | lit (b : Bytes)                      -- -printf with literal text only
   | prune | quit
+  -- `-exec cmd args ;` / `-execdir …` (dir = true); `cmdOk = false`: the command cannot be started
+  | exec (dir : Bool) (cmdOk : Bool) (cmd : Bytes) (tmpl : List Bytes)
+  -- `-exec cmd args {} +` / `-execdir …`; `id` distinguishes the primaries of one expression
+  | execMulti (id : Nat) (dir : Bool) (cmdOk : Bool) (cmd : Bytes) (fixed : List Bytes)
   deriving Repr, DecidableEq
 
 def Prim.isAction : Prim → Bool
   | .pathOut _ _ => true
   | .lit _ => true
+  | .exec _ _ _ _ => true
+  | .execMulti _ _ _ _ _ => true
   | _ => false
 
 structure Config where
@@ -75,29 +82,181 @@ def fileName (start : Bytes) (v : Visit Attr) : Bytes :=
   | [] => rootBase start
   | n :: _ => n
 
-/-- per-entry evaluation state (`MatcherIO` plus the shared output) -/
+/-! ### -exec -/
+
+/-- one started (or attempted) command: argv, working directory (`none` = find's own) -/
+structure ExecEvent where
+  argv : List Bytes
+  cwd : Option Bytes
+  deriving Repr, DecidableEq
+
+/-- the command line under construction of one `-exec … {} +` (`argmax::Command`) -/
+structure Batch where
+  paths : List Bytes          -- appended so far, in order
+  remaining : Int             -- `remaining_argument_length`
+  deriving Repr
+
+/-- what is threaded through a whole run -/
+structure GS where
+  out : Bytes := []
+  execs : List ExecEvent := []            -- in the order started
+  script : List Nat := []                 -- exit statuses of the commands to come (then 0)
+  pending : List (Nat × Batch) := []      -- batches of the `+` primaries
+  curDir : Option Bytes := none           -- `current_dir` of `process_dir`
+  budget : Nat := 2000000                 -- `ARG_MAX` minus the size of the environment
+  panicked : Bool := false
+  deriving Repr
+
+/-- per-entry evaluation state (`MatcherIO` plus what is shared) -/
 structure ES where
-  out : Bytes
+  gs : GS
   prune : Bool
   quit : Bool
   exit : Nat
   deriving Repr
 
+/-- `str::split("{}")` -/
+def splitBraces : Bytes → Bytes → List Bytes
+  | [], cur => [cur.reverse]
+  | [b], cur => [(b :: cur).reverse]
+  | a :: b :: rest, cur =>
+    if a == 123 && b == 125 then cur.reverse :: splitBraces rest []
+    else splitBraces (b :: rest) (a :: cur)
+
+def joinParts (path : Bytes) : List Bytes → Bytes
+  | [] => []
+  | [p] => p
+  | p :: ps => p ++ path ++ joinParts path ps
+
+/-- one argument of the template with every `{}` replaced -/
+def substArg (path : Bytes) (a : Bytes) : Bytes := joinParts path (splitBraces a [])
+
+/-- the path handed to the command, and the directory it runs in -/
+def execPath (dir : Bool) (path : Bytes) : Bytes :=
+  if dir then
+    match FuModel.Path.fileName path with
+    | some f => FuModel.Path.join [46] f
+    | none => FuModel.Path.join [46] path
+  else path
+
+def execCwd (dir : Bool) (path : Bytes) : Option Bytes :=
+  if dir then
+    match FuModel.Path.parent path with
+    | none => some path
+    | some [] => none
+    | some p => some p
+  else none
+
+/-- start a command: consumes one scripted status; `none` = it could not be started -/
+def GS.spawn (g : GS) (cmdOk : Bool) (argv : List Bytes) (cwd : Option Bytes) : Option Nat × GS :=
+  if cmdOk then
+    match g.script with
+    | [] => (some 0, { g with execs := g.execs ++ [⟨argv, cwd⟩] })
+    | st :: rest => (some st, { g with execs := g.execs ++ [⟨argv, cwd⟩], script := rest })
+  else (none, g)
+
+/-- argmax: `available_argument_length` for a program name, and the size of one argument -/
+def argSize (a : Bytes) : Int := 8 + a.length + 1
+
+def availableLength (budget : Nat) (cmd : Bytes) : Int :=
+  let v : Int := (budget : Int) - 8 - argSize cmd - 8 - 4096 - 2048
+  if v < 0 then 0 else if v > 16777216 then 16777216 else v
+
+def maxSingleArg : Nat := 131071
+
+def Batch.tryArg (b : Batch) (a : Bytes) : Option Batch :=
+  if a.length > maxSingleArg || argSize a > b.remaining then none
+  else some { b with paths := b.paths ++ [a], remaining := b.remaining - argSize a }
+
+/-- `new_command`: `none` = `try_args(fixed).unwrap()` panics -/
+def newBatch (budget : Nat) (cmd : Bytes) (fixed : List Bytes) : Option Batch :=
+  let total := (fixed.map argSize).foldl (· + ·) 0
+  if fixed.any (·.length > maxSingleArg) || total > availableLength budget cmd then none
+  else some ⟨[], availableLength budget cmd - total⟩
+
+def setPending (g : GS) (id : Nat) (b : Option Batch) : GS :=
+  { g with pending := (match b with | some b => [(id, b)] | none => []) ++ g.pending.filter (·.1 != id) }
+
+/-- `run_command`: returns the new state and whether the exit code must be set -/
+def runBatch (g : GS) (cmdOk : Bool) (cmd : Bytes) (fixed : List Bytes) (b : Batch) (cwd : Option Bytes) : GS × Bool :=
+  let r := g.spawn cmdOk (cmd :: fixed ++ b.paths) cwd
+  (r.2, r.1 != some 0)
+
 def sem (start : Bytes) (v : Visit Attr) (p : Prim) (s : ES) : Bool × ES :=
+  let path := pathOf start v.ent.rpath
   match p with
   | .true_ => (true, s)
   | .false_ => (false, s)
   | .opt => (true, s)
   | .name l => (fileName start v == l, s)
   | .typeIs c => (fileType v == c, s)
-  | .pathOut pre term => (true, { s with out := s.out ++ pre ++ pathOf start v.ent.rpath ++ term })
-  | .lit b => (true, { s with out := s.out ++ b })
+  | .pathOut pre term => (true, { s with gs := { s.gs with out := s.gs.out ++ pre ++ path ++ term } })
+  | .lit b => (true, { s with gs := { s.gs with out := s.gs.out ++ b } })
   | .prune => (true, if fileType v == 'd' then { s with prune := true } else s)
   | .quit => (true, { s with quit := true })
+  | .exec dir cmdOk cmd tmpl =>
+    let r := s.gs.spawn cmdOk (cmd :: tmpl.map (substArg (execPath dir path))) (execCwd dir path)
+    (r.1 == some 0, { s with gs := r.2 })
+  | .execMulti id dir cmdOk cmd fixed =>
+    if s.gs.panicked then (true, s) else
+    let arg := execPath dir path
+    let cur : Option Batch := match s.gs.pending.lookup id with
+      | some b => some b
+      | none => newBatch s.gs.budget cmd fixed
+    match cur with
+    | none => (true, { s with gs := { s.gs with panicked := true } })
+    | some b =>
+      match b.tryArg arg with
+      | some b' => (true, { s with gs := setPending s.gs id (some b') })
+      | none =>
+        -- dispatch what has been collected, start afresh
+        let r := runBatch s.gs cmdOk cmd fixed b (execCwd dir path)
+        let s1 : ES := { s with gs := r.1, exit := if r.2 then 1 else s.exit }
+        match newBatch s.gs.budget cmd fixed with
+        | none => (true, { s1 with gs := { s1.gs with panicked := true } })
+        | some nb =>
+          match nb.tryArg arg with
+          | some nb' => (true, { s1 with gs := setPending s1.gs id (some nb') })
+          | none => (true, { s1 with gs := setPending s1.gs id (some nb), exit := 1 })
 
-def evalEntry (m : M Prim) (start : Bytes) (v : Visit Attr) (out : Bytes) : EvalOut × Bytes :=
-  let r := M.eval (sem start v) (·.quit) m ⟨out, false, false, 0⟩
-  (⟨r.2.prune, r.2.quit, r.2.exit⟩, r.2.out)
+/-- the `+` primaries of a tree, for `finished_dir` / `finished` -/
+def M.multis : M Prim → List (Nat × Bool × Bool × Bytes × List Bytes)
+  | .prim (.execMulti id dir ok cmd fixed) => [(id, dir, ok, cmd, fixed)]
+  | .prim _ => []
+  | .not m => M.multis m
+  | .and ms => go ms
+  | .or ms => go ms
+  | .list ms => go ms
+where go : List (M Prim) → List (Nat × Bool × Bool × Bytes × List Bytes)
+  | [] => []
+  | m :: ms => M.multis m ++ go ms
+
+/-- `finished_dir(dir)` (flushes -execdir batches) or `finished()` (flushes -exec batches):
+    returns the state and whether some command failed -/
+def flushMultis (execdir : Bool) (dirArg : Bytes) : List (Nat × Bool × Bool × Bytes × List Bytes) → GS → Bool → GS × Bool
+  | [], g, failed => (g, failed)
+  | (id, dir, ok, cmd, fixed) :: rest, g, failed =>
+    if dir == execdir then
+      match g.pending.lookup id with
+      | some b =>
+        let r := runBatch g ok cmd fixed b (if execdir then some (FuModel.Path.join [46] dirArg) else none)
+        flushMultis execdir dirArg rest (setPending r.1 id none) (failed || r.2)
+      | none => flushMultis execdir dirArg rest g failed
+    else flushMultis execdir dirArg rest g failed
+
+/-- one entry: the `current_dir` bookkeeping of `process_dir`, then the expression -/
+def evalEntry (m : M Prim) (start : Bytes) (v : Visit Attr) (g : GS) : EvalOut × GS :=
+  let path := pathOf start v.ent.rpath
+  let newDir := FuModel.Path.parent path
+  let (g1, failed) :=
+    if newDir != g.curDir then
+      let r := match g.curDir with
+        | some d => flushMultis true d (M.multis m) g false
+        | none => (g, false)
+      ({ r.1 with curDir := newDir }, r.2)
+    else (g, false)
+  let r := M.eval (sem start v) (·.quit) m ⟨g1, false, false, if failed then 1 else 0⟩
+  (⟨r.2.prune, r.2.quit, r.2.exit⟩, r.2.gs)
 
 /-! ### `-sorted`: byte-wise order of the names in every listing -/
 
@@ -125,28 +284,40 @@ end
 def refCfg (c : Config) : RefCfg := ⟨c.depthFirst, c.minDepth, c.maxDepth, c.follow⟩
 
 structure RunRes where
-  out : Bytes
+  gs : GS
   ret : Nat
   quit : Bool
   diags : Nat
   deriving Repr
 
+/-- the end of `process_dir`: `finished_dir(current_dir)`, `finished()` -/
+def finishDir (m : M Prim) (g : GS) : GS × Bool :=
+  let r1 := match g.curDir with
+    | some d => flushMultis true d (M.multis m) g false
+    | none => (g, false)
+  let r2 := flushMultis false [] (M.multis m) r1.1 r1.2
+  ({ r2.1 with curDir := none }, r2.2)
+
 /-- one starting point; `none` = it cannot be examined at all -/
-def processDir (c : Config) (m : M Prim) (start : Bytes) (root : Option (Node Attr)) (out : Bytes) : RunRes :=
+def processDir (c : Config) (m : M Prim) (start : Bytes) (root : Option (Node Attr)) (g : GS) : RunRes :=
   match root with
-  | none => ⟨out, 1, false, 1⟩
+  | none =>
+    -- the walk yields one error; `finished` still runs
+    let f := finishDir m { g with curDir := none }
+    ⟨f.1, 1, false, 1⟩
   | some n =>
     let n := if c.sorted then sortNode n else n
-    let r := processRoot (refCfg c) (evalEntry m start) n out
-    ⟨r.st, r.ret, r.quit, r.diags⟩
+    let r := processRoot (refCfg c) (evalEntry m start) n { g with curDir := none }
+    let f := finishDir m r.st
+    ⟨f.1, if f.2 then 1 else r.ret, r.quit, r.diags⟩
 
-def doFind (c : Config) (m : M Prim) : List (Bytes × Option (Node Attr)) → Bytes → Nat → Nat → RunRes
-  | [], out, ret, diags => ⟨out, ret, false, diags⟩
-  | (start, root) :: rest, out, ret, diags =>
-    let r := processDir c m start root out
+def doFind (c : Config) (m : M Prim) : List (Bytes × Option (Node Attr)) → GS → Nat → Nat → RunRes
+  | [], g, ret, diags => ⟨g, ret, false, diags⟩
+  | (start, root) :: rest, g, ret, diags =>
+    let r := processDir c m start root g
     let ret' := if r.ret != 0 then r.ret else ret
-    if r.quit then ⟨r.out, ret', true, diags + r.diags⟩
-    else doFind c m rest r.out ret' (diags + r.diags)
+    if r.quit then ⟨r.gs, ret', true, diags + r.diags⟩
+    else doFind c m rest r.gs ret' (diags + r.diags)
 
 /-! ### the argument layer: option primaries mutate the configuration while the tree is built -/
 
@@ -169,10 +340,10 @@ def applyArg (c : Config) : Arg → Config
   | .tok _ => c
 
 /-- the whole run: `-H`, `-L`, `-P` flag, starting points with what they resolve to, expression -/
-def run (follow : Follow) (roots : List (Bytes × Option (Node Attr))) (args : List Arg) : Option RunRes :=
+def run (follow : Follow) (roots : List (Bytes × Option (Node Attr))) (args : List Arg) (g0 : GS := {}) : Option RunRes :=
   let c := args.foldl applyArg { follow := follow }
   match buildTop Prim.isAction (.pathOut [] [10]) (args.map Arg.tok') with
-  | .ok m => some (doFind c m roots [] 0 0)
+  | .ok m => some (doFind c m roots g0 0 0)
   | .error _ => none
 
 end FuModel.Find.Run
